@@ -16,12 +16,15 @@ import (
 	"sync"
 	"time"
 
+	"github.com/google/mtail/internal/exporter"
 	"github.com/google/mtail/internal/logline"
 	"github.com/google/mtail/internal/metrics"
 	"github.com/google/mtail/internal/metrics/datum"
 	"github.com/google/mtail/internal/runtime"
 	"github.com/google/mtail/internal/runtime/compiler"
 	"github.com/google/mtail/internal/zzverif/vlib"
+	"github.com/prometheus/client_golang/prometheus"
+	dto "github.com/prometheus/client_model/go"
 )
 
 // Sources interns program texts: identical text <-> identical id (the model's
@@ -124,6 +127,11 @@ type RT struct {
 	Sent     int64 // lines pushed into the runtime's channel (incl. barrier lines)
 	SyncSent int64 // of which barrier lines
 	progs    map[string]bool
+	// Prometheus: as in mtail.Server the exporter is registered while the
+	// store is still empty (an unchecked collector) and gathered later
+	exp     *exporter.Exporter
+	reg     *prometheus.Registry
+	expStop context.CancelFunc
 }
 
 func NewRT(srcs *Sources, programPath string, opts ...runtime.Option) (*RT, error) {
@@ -139,7 +147,63 @@ func NewRT(srcs *Sources, programPath string, opts ...runtime.Option) (*RT, erro
 		return nil, err
 	}
 	rt.R = r
+	ctx, cancel := context.WithCancel(context.Background())
+	rt.expStop = cancel
+	if e, err := exporter.New(ctx, rt.Store, exporter.Hostname("verif")); err == nil {
+		rt.exp = e
+		rt.reg = prometheus.NewRegistry()
+		if err := rt.reg.Register(e); err != nil {
+			rt.reg = nil
+		}
+	}
 	return rt, nil
+}
+
+// Series is one exported Prometheus sample.
+type Series struct {
+	Name   string            `json:"name"`
+	Labels map[string]string `json:"labels"`
+	Value  float64           `json:"value"`
+}
+
+// Scrape gathers the registry as /metrics does and returns the samples by the
+// value of their prog label, each list sorted; err is the Gather error.
+func (rt *RT) Scrape() (map[string][]string, error) {
+	out := map[string][]string{}
+	if rt.reg == nil {
+		return out, fmt.Errorf("exporter not registered")
+	}
+	mfs, err := rt.reg.Gather()
+	for _, mf := range mfs {
+		for _, m := range mf.GetMetric() {
+			prog := ""
+			var ls []string
+			for _, lp := range m.GetLabel() {
+				if lp.GetName() == "prog" {
+					prog = lp.GetValue()
+				}
+				ls = append(ls, lp.GetName()+"="+strconv.Quote(lp.GetValue()))
+			}
+			sort.Strings(ls)
+			out[prog] = append(out[prog], fmt.Sprintf("%s{%s} %v", mf.GetName(), strings.Join(ls, ","), sampleValue(m)))
+		}
+	}
+	for k := range out {
+		sort.Strings(out[k])
+	}
+	return out, err
+}
+
+func sampleValue(m *dto.Metric) float64 {
+	switch {
+	case m.Counter != nil:
+		return m.Counter.GetValue()
+	case m.Gauge != nil:
+		return m.Gauge.GetValue()
+	case m.Untyped != nil:
+		return m.Untyped.GetValue()
+	}
+	return 0
 }
 
 var slowCounter bool
@@ -243,6 +307,10 @@ func (rt *RT) Gc() {
 func (rt *RT) Close() {
 	close(rt.lines)
 	rt.wg.Wait()
+	if rt.exp != nil {
+		rt.exp.Stop()
+	}
+	rt.expStop()
 }
 
 func declObs(m *metrics.Metric) DeclObs {
@@ -500,6 +568,8 @@ func CoqEffect(e Effect) string {
 		return vlib.App("EDel", m, T(e.Ls))
 	case "expire":
 		return vlib.App("EExpire", m, T(e.Ls), vlib.Z(e.Dur))
+	case "fail":
+		return "EFail"
 	}
 	panic("effect " + e.Op)
 }
